@@ -192,3 +192,42 @@ func init() {
 			"\tif sliced {\n\t\treturn seq, nil\n\t}\n", "\t_ = sliced\n", "C09-G5", "examines the plan for a slicer"},
 	)
 }
+
+func init() {
+	addMutants(
+		Mutant{"C03", "c03-vcache-array-loads-projected-only", "runtime/vcache/loader.go", "loader.loadVector",
+			"\tcase *array:\n\t\tl.loadOffsets(g, &s.mu, &s.offs, s.loc, s.length(), s.nulls.flat)\n\t\tl.loadVector(g, nil, s.vals)", "\tcase *array:\n\t\tl.loadOffsets(g, &s.mu, &s.offs, s.loc, s.length(), s.nulls.flat)\n\t\tl.loadVector(g, paths, s.vals)", "C03-P2", "loadVector below a array"},
+		Mutant{"C03", "c03-vcache-error-payload-own-nulls", "runtime/vcache/loader.go", "flattenNulls",
+			"flattenNulls(paths, s.vals, nulls)\n\tcase *named:", "_ = nulls\n\t\tflattenNulls(paths, s.vals, nil)\n\tcase *named:", "C03-E1", "child of error_"},
+		Mutant{"C09", "c09-count-dict-drops-nulls", "runtime/vam/op/agg.go", "CountByString.update",
+			"\t\tc.table.countNulls(val.Nulls, val.Len())\n", "", "C09-N2", "dictionary case"},
+		Mutant{"C09", "c09-count-plain-nulls-as-empty", "runtime/vam/op/agg.go", "countByString.count",
+			"\t\tif vec.Nulls.Value(uint32(k)) {\n\t\t\tc.nulls++\n\t\t\tcontinue\n\t\t}\n", "", "C09-N2", "count reads"},
+	)
+}
+
+func init() {
+	addMutants(
+		Mutant{"C10", "c10-inputsortdir-any-key", "compiler/optimizer/optimizer.go", "Optimizer.propagateSortKeyOp",
+			"for _, k := range op.Keys[:min(1, len(op.Keys))] {", "for _, k := range op.Keys {", "C10-I1", "sets InputSortDir"},
+		Mutant{"C19", "c19-dot-segments-unescaped", "api/client/connection.go", "urlPath",
+			"case \".\", \"..\":", "case \"\\x00.\":", "C19-K8", "dot segments"},
+		Mutant{"C11", "c11-surrogate-check-at-start", "zson/lexer.go", "parseStringBytes",
+			"len(bytes)-k < 6 || bytes[k] != '\\\\' || bytes[k+1] != 'u'", "len(bytes) < 6 || bytes[0] != '\\\\' || bytes[1] != 'u'", "C11-S2", "parseStringBytes"},
+		Mutant{"C11", "c11-backtick-empty-indexed", "zson/lexer.go", "Lexer.scanBacktickString",
+			"if len(b) > 0 && b[0] == '\\n' {", "if b[0] == '\\n' {", "C11-V2", "scanBacktickString"},
+		Mutant{"C11", "c11-string-enum-unchecked", "zson/analyzer.go", "stringToEnum",
+			"val.Type == \"string\" && enum.Lookup(val.Text) >= 0", "val.Type == \"string\" && enum != nil", "C11-V2", "stringToEnum"},
+		Mutant{"C11", "c11-zjson-short-record", "zio/zjsonio/reader.go", "Reader.decodeRecord",
+			"\tif len(values) < len(fields) {\n\t\treturn errors.New(\"record with missing field\")\n\t}\n", "", "C11-V2", "decodeRecord"},
+		Mutant{"C11", "c11-checkenum-signed", "value.go", "checkEnum",
+			"selector >= uint64(len(typ.Symbols))", "int(selector) >= len(typ.Symbols)", "C11-V2", "checkEnum"},
+	)
+}
+
+func init() {
+	addMutants(
+		Mutant{"C07", "c07-nulls-first-sort-propagated", "compiler/optimizer/op.go", "sortKeysOfSort",
+			"\tif op.NullsFirst {", "\tif op.NullsFirst && len(op.Args) > 1 {", "C07-N3", "nulls-first sort"},
+	)
+}
